@@ -104,7 +104,7 @@ def choose_repr(rng: random.Random, types, keys, tunit):
             continue
         whole = all(float(v).is_integer() and abs(v) < 2**53 for v in vals)
         opts = ["float64"] if all(abs(v) < 2**53 for v in vals) or ty == "float" else []
-        if all(_f32_exact(float(v)) for v in vals):
+        if all(float(v) == v and _f32_exact(float(v)) for v in vals):      # float(v) == v: an int beyond 2^53 must not be ROUNDED into a float
             opts.append("float32")
         if whole:
             opts += ["int64", "int64"] + [d for d, (lo, hi_) in SMALL_INT.items() if all(lo <= v <= hi_ for v in vals)]
